@@ -595,14 +595,20 @@ def check_C09(tier, seed):
     if tier == QUICK:
         reader_histories(rep, tier, seed + 9, "c09r_", False, 6, 400)
         parser_runs(rep, "lines", seed, "c09_", 12, 300)
+        parser_runs(rep, "sched", seed + 11, "c09a_", 8, 60, parsers="aag,aig", specs=("Trace_AigerRef",))
+        parser_runs(rep, "bounds", seed + 12, "c09b_", 6, 120, parsers="aig", specs=("Trace_AigerRef",))
     else:
+        parser_runs(rep, "sched", seed + 11, "c09a_", 14, 800, parsers="aag,aig", specs=("Trace_AigerRef",))
+        parser_runs(rep, "bounds", seed + 12, "c09b_", 14, 2000, parsers="aig", specs=("Trace_AigerRef",))
         reader_histories(rep, tier, seed + 9, "c09r_", False, 14, 4000, ops=60, maxlen=96)
         parser_runs(rep, "lines", seed, "c09_", 14, 6000)
     rep.cov["rule"] = ("reader clause: ReaderAbs enables a source read only while the pending request is unsatisfied and the "
                        "source has not ended (model-checked refinement; every src record of every trace); item clause: "
                        "well-formed documents of every streaming parser through a source that returns at most one line per "
                        "read (chunk 16384, 8, 1): when an item is returned, the bytes delivered must not exceed the end of "
-                       "the line that completes it. " + CONTRACT_RULE)
+                       "the line that completes it; AIGER (ASCII and binary, incl. and-gates with delta codes of every length) "
+                       "with one byte per read: when an entry is returned nothing behind its last byte (per the reference "
+                       "reading AigerRef) has been pulled. " + CONTRACT_RULE)
     return rep.finish()
 
 
